@@ -48,6 +48,7 @@ fn from_sr(rs: &[SearchResult]) -> Vec<(u64, f32)> {
 }
 
 pub fn run_impl(c: &Case) -> Vec<Obs> {
+    kvh::panicrec::set_input_debug(c);
     let mut cache = QueryHashCache::new(c.cap, c.thr);
     if let Some(l) = c.scan {
         cache.set_similarity_scan_limit(l);
